@@ -64,6 +64,21 @@ CLAIMED = {
         design_ref="DESIGN.md section 5, C20",
         note="Partial: the validator (feature gating) itself is not modelled; its verdicts are observed per case. Multi-byte table/memory immediates are covered by C03's index renaming (same index) rather than a byte-length theorem. Trusted: Coq kernel + vm_compute; models tied by differential replay; wasmparser validator as oracle. No axioms.",
         technique="Coq proof: origin lemma for every output operator of the normal form, counting lemma for control operators, case analysis of the element/data-count emitters; differential replay + reduced-feature validation"),
+    "C02": dict(
+        text="Coq theorems on the module-level models for the 'never panics / no referenced entity without an emitted index' half: a successfully parsed module is referentially closed (every id a live entity mentions denotes a live entity of the right arena), the GC pass keeps it closed (a kept entity only refers to kept entities), and a closed module is emitted without any 'index not set' or dead-arena panic by every section emitter - immediately and after GC - given that each function body is emitted on the final maps (for bodies denoting a tree with well-scoped branches the Emit visitor provably does not panic); the name-section emitter is discharged; the single corner where GC breaks closedness (a ref.func OFFSET of an active segment, unreachable from any valid binary) is exhibited as a witness. Validity of the output is observed: every output of the module-level run (no pass / GC, all configurations), of the builder run (C15), of the edit run (C18) and of the code-transform run (C11: unchanged, GC, inserted instructions) is validated with wasmparser under walrus's feature set, and every panic is reported.",
+        design_ref="DESIGN.md section 5, C02",
+        note="Partial: acceptance by an independent validator is observed per case, not proved (no validator model). Two recorded findings, both 'undeclared function reference' (walrus never synthesises a declarative element segment): after GC when every declarer of a ref.func target is unreachable; after replace_exported_func when the retargeted export was the only declarer. DWARF emission is exercised by C10's harness. Trusted: Coq kernel + vm_compute; hand-written models tied by differential replay. No axioms.",
+        technique="Coq proof: referential-closure invariant through the payload fold and through gc (from used_closed), per-emitter totality lemmas; differential replay + validation of every output"),
+    "C04": dict(
+        text="Coq theorems: (A) the attribute plumbing REGENERATED from src/module/{tables,memories,globals,imports}.rs round-trips every attribute of tables, memories and globals, imported and local (limits, shared, 64-bit flags, page size, element type, value type, mutability) - a field the code drops or replaces by a literal breaks the proof; (B) for an arbitrary accepted payload stream emitted without a pass, the table and memory sections are literally the input's, the import section lists the same (module, field, kind, full type) entries in the same order with function type indices renamed, globals keep type/mutability with initialisers renamed, exports keep names/kinds/order with renamed items, the start function is renamed, element segments keep count, order, mode, item form and length with targets/offsets/items renamed, and all section lengths equal the input's. Tied to the code by the module-level replay over the attribute cross-product generator; an independent oracle compares every non-code section of input and output decoded with wasmparser, modulo the renumbering captured through the public index maps.",
+        design_ref="DESIGN.md section 5, C04",
+        note="Partial: data segments (data-count pre-reservation path) and function signatures through type de-duplication are decided by the correspondence run and the structure oracle only, not yet by a module-level theorem. Trusted: Coq kernel + vm_compute; translator for Gen/Attrs.v; hand-written ParseM/EmitM tied by differential replay. No axioms.",
+        technique="Coq proof: reflexivity over generated attribute functions; trace lemmas over the payload fold composed with closed forms of the emitters; differential replay + section-by-section oracle"),
+    "C11": dict(
+        text="Coq theorems on a model of the CodeTransform that ModuleFunctions::emit builds: every input location occurs in at most one pair; a pair (loc, k, pos) says that in the k-th emitted function the instruction with InstrLocId loc starts at byte pos, and - composed with the body round-trip theorem - that this instruction is the image of the input instruction at input offset loc (the only default-location entries are synthesized elses); instructions carrying the default location (everything inserted through the builder API) are in no pair; the function ranges are exactly the extents of the size-prefixed entries, contiguous from the first entry, sorted by id; code_section_start is where the contents of the code section start for every function count (LEB boundaries 128 / 16384 proved), and the pre-repair formula is refuted. Tied to the code by recording the real CodeTransform through CustomSection::apply_code_transform on fixtures and generated modules - unchanged, after GC, and after inserting marker instructions - and comparing inside Coq; an independent oracle re-derives every pair, range and the start from a wasmparser decode of input and output.",
+        design_ref="DESIGN.md section 5, C11",
+        note="Two genuine defects found by this check were repaired in walrus (else-less if end location; code_section_start off by one outside 128..16383 functions); see known_findings.json. Instruction byte lengths are wasm-encoder's: the model runs with unit lengths and offsets are translated to operator ordinals by the harness. Trusted: Coq kernel + vm_compute; hand-written CodeMap model tied by differential replay. No axioms.",
+        technique="Coq proof: BTreeMap-insert invariants, prefix-sum characterisation of recorded positions, origin of normal-form tags, layout arithmetic with LEB lengths; differential replay of the recorded CodeTransform"),
 }
 
 PENDING_REASON = "check not yet built in this snapshot (construction in progress per DESIGN.md section 10); an executable Coq model is planned, so this is not a claim that the technique cannot apply"
